@@ -186,8 +186,11 @@ fn gen_impl_delegation_trait_defs(
     let mut trait_copy = out_trait.clone();
     trait_copy.ident = impl_trait_ident.clone();
     // Default bodies belong to the user's trait; the methods of this trait take `__impl`
+    // (and, without a body, one plain identifier per parameter)
     for trait_fn in trait_copy.fns.iter_mut() {
-        trait_fn.default_body = None;
+        if trait_fn.default_body.take().is_some() {
+            crate::signature::fn_params::fix_fn_param_idents(&mut trait_fn.entrait_sig.sig);
+        }
     }
 
     let no_mock_opts = Opts {
